@@ -758,6 +758,15 @@ def check_C18(res, tier, seed):
                                     'what': 'private and public CKA_VALUE reads, search, AES-ECB encryption under a private token key; each thread its own session; answers compared with a sequential run; every other run uses CKF_OS_LOCKING_OK after an unlocked C_Initialize(NULL) / C_Finalize cycle instead of mutex callbacks; churn runs: two threads create and destroy session objects while two threads search and read labels - only a crash or a hang counts there'},
                          'scenarios': info, 'findings_by_class': byclass, 'traces_validated_against_impl': len(jobs),
                          'not_covered': 'more than two threads under schedule control, more than one stop point per call, OS locking (CKF_OS_LOCKING_OK) instead of callbacks, data races without a visible effect (no ThreadSanitizer run), SQLite backend'})
+    try:
+        import khandle
+        hcov, hbad = khandle.run(c.build, seed, 300 if tier == 'quick' else 900)
+        res.coverage['k_handle'] = hcov
+        for b in hbad[:3]:
+            res.violation('C18: K-handle: %s' % b['why'], {'kind': 'handle-manager-correspondence', 'ops': b['ops'], 'implementation_printed': b['impl'], 'coq_case': b.get('coq_case', ''),
+                                                           'how': 'echo "<ops>" | .cache/bin/hmdrv   (ops: s slot ptr | o slot hsess priv ptr | t slot priv ptr | d h | c h | a slot | l slot); model: coq/Conc/HandleLife.v `obs`'})
+    except Exception as e:
+        res.violation('C18: K-handle could not run: %s' % str(e)[:300], {'kind': 'handle-manager-correspondence', 'theorem_or_correspondence': 'K-handle (coq/Conc/HandleLife.v vs src/lib/handle_mgr/HandleManager.cpp)', 'error': str(e)[:2000]}, no_input=True)
     finish_proof_side(c, res, 'C18')
 
 
